@@ -69,9 +69,12 @@ def edits(rng, sd):
                     tt.children.append(F.KeyD(ch.name, "string", attr="fresh_attr8"))
                     out.append(("unique-key-names-inherited", d))
                 else:
-                    a = ch.attr or (ch.name or "x")
-                    tt.children.append(F.KeyD("zzfresh8", "string", attr=a))
-                    out.append(("unique-attribute-names-inherited", d))
+                    # the attribute an item gets when none is given is basic-key(name) with '-' -> '_' (lower-cased
+                    # even under a case-preserving key type)
+                    a = ch.attr or F._basic_key(ch.name or "x").replace("-", "_")
+                    if "." not in a:
+                        tt.children.append(F.KeyD("zzfresh8", "string", attr=a))
+                        out.append(("unique-attribute-names-inherited", d))
             break
     # 4 types defined before use
     d = clone()
